@@ -56,6 +56,38 @@ Theorem C03_terminates :
 Proof. exact find_roots_terminates. Qed.
 Print Assumptions C03_terminates.
 
+(* A caller may set opts.FindPredecessors itself.  The walk theorems hold for ANY such function
+   (acyclic), and filters stacked on it follow exactly those of its predecessors whose manifest
+   satisfies them. *)
+Theorem C03_any_find_predecessors_unlimited :
+  forall (fp : nat -> list desc) (rank : nat -> nat) (limit : Z) (node : desc) (fuel : nat) (roots : list desc),
+    (forall x p, In p (fp x) -> rank x < rank (d_id p)) -> (limit <= 0)%Z ->
+    find_roots_fp fuel fp limit node = Some roots ->
+    (forall r, In r roots -> Proofs.FindRoots.reach fp (d_id node) (d_id r) /\ fp (d_id r) = []) /\
+    (forall a, Proofs.FindRoots.reach fp (d_id node) a -> fp a = [] -> In a (map d_id roots)) /\
+    (forall a, Proofs.FindRoots.reach fp (d_id node) a -> exists r, In r roots /\ Proofs.FindRoots.reach fp a (d_id r)).
+Proof. exact find_roots_fp_unlimited. Qed.
+Print Assumptions C03_any_find_predecessors_unlimited.
+
+Theorem C03_any_find_predecessors_depth :
+  forall (fp : nat -> list desc) (rank : nat -> nat) (limit : Z) (node : desc) (fuel : nat) (roots : list desc),
+    (forall x p, In p (fp x) -> rank x < rank (d_id p)) -> (0 < limit)%Z ->
+    find_roots_fp fuel fp limit node = Some roots ->
+    (forall r, In r roots ->
+       (exists k, Z.of_nat k <= limit /\ Proofs.FindRoots.path fp k (d_id node) (d_id r))%Z /\
+       (fp (d_id r) = [] \/ Proofs.FindRoots.path fp (Z.to_nat limit) (d_id node) (d_id r))) /\
+    (exists r, In r roots /\ Proofs.FindRoots.reach fp (d_id node) (d_id r)).
+Proof. exact find_roots_fp_depth. Qed.
+Print Assumptions C03_any_find_predecessors_depth.
+
+Theorem C03_custom_filter_exact :
+  forall (s : source) (custom : nat -> list desc) (fs : list filter) (x : nat),
+    Forall (desc_consistent s) (custom x) ->
+    map d_id (find_preds_custom s custom fs x) =
+    List.filter (fun id => forallb (fun f => keep_spec s f id) fs) (map d_id (custom x)).
+Proof. exact find_preds_custom_exact. Qed.
+Print Assumptions C03_custom_filter_exact.
+
 (* Failing source operations (Predecessors / Referrers / the Fetch of a missing field), any
    position k of the armed fault: when findRoots nevertheless succeeds, its result is the
    fault-free one -- no error is swallowed into a partial predecessor list or root set; so
